@@ -125,13 +125,7 @@ func writeMultipartFormFile(w *multipart.Writer, file *FileUpload, r *Request) e
 
 func writeMultiPart(r *Request, w *multipart.Writer) {
 	defer w.Close() // close multipart to write tailer boundary
-	if len(r.FormData) > 0 {
-		for k, vs := range r.FormData {
-			for _, v := range vs {
-				w.WriteField(k, v)
-			}
-		}
-	} else if len(r.OrderedFormData) > 0 {
+	if len(r.OrderedFormData) > 0 {
 		if len(r.OrderedFormData)%2 != 0 {
 			r.error = errBadOrderedFormData
 			return
@@ -141,6 +135,11 @@ func writeMultiPart(r *Request, w *multipart.Writer) {
 			key := r.OrderedFormData[i]
 			value := r.OrderedFormData[i+1]
 			w.WriteField(key, value)
+		}
+	}
+	for k, vs := range r.FormData {
+		for _, v := range vs {
+			w.WriteField(k, v)
 		}
 	}
 	for _, file := range r.uploadFiles {
@@ -209,6 +208,10 @@ func handleOrderedFormData(r *Request) {
 		buf.WriteByte('=')
 		buf.WriteString(url.QueryEscape(value))
 	}
+	if encoded := r.FormData.Encode(); encoded != "" { // plain form data follows the ordered pairs
+		buf.WriteByte('&')
+		buf.WriteString(encoded)
+	}
 	r.SetBodyString(buf.String())
 }
 
@@ -264,11 +267,11 @@ func parseRequestBody(c *Client, r *Request) (err error) {
 		return handleMultiPart(c, r)
 	}
 
-	if len(r.FormData) > 0 {
-		handleFormData(r)
-		return
-	} else if len(r.OrderedFormData) > 0 {
+	if len(r.OrderedFormData) > 0 {
 		handleOrderedFormData(r)
+		return
+	} else if len(r.FormData) > 0 {
+		handleFormData(r)
 		return
 	}
 
